@@ -218,6 +218,9 @@ int QSexact_infeasible_test (mpq_QSdata * p,
 			mpq_set(__lres[__lsz],mpq_ILL_MAXDOUBLE);\
 		else if(__larray[__lsz] == dbl_ILL_MINDOUBLE)\
 			mpq_set(__lres[__lsz],mpq_ILL_MINDOUBLE);\
+		else if(!(__larray[__lsz] - __larray[__lsz] == 0.0)) /* infinite or NaN: no rational value */\
+			mpq_set(__lres[__lsz], __larray[__lsz] > 0.0 ? mpq_ILL_MAXDOUBLE :\
+							(__larray[__lsz] < 0.0 ? mpq_ILL_MINDOUBLE : mpq_zeroLpNum));\
 		else mpq_EGlpNumSet(__lres[__lsz],__larray[__lsz]);\
 	}\
 	__lres;})
